@@ -1,12 +1,162 @@
-import NdnVerif.C10.Model
-import NdnVerif.C10.Spec
-namespace Ndn.C10
+/-
+  C10 — property theorems (only).  Helper lemmas: `LemmasTx.lean`, `LemmasRx.lean`.
 
+  `sendPacket cfg st p` is the model of fw/face/ndnlp-link-service.go `sendPacket` (frames handed to
+  `transport.sendFrame`, in order); `rxRun true validL3 store frames` the model of the receiving
+  link service (`handleIncomingFrame` / `reassemblePacket`) over a sequence of arriving frames.
+  Quantification is over ALL configurations (every flag combination), ALL 64-bit sequence
+  counters, ALL packets within the protocol bounds — no enumeration.
+-/
+import NdnVerif.C10.LemmasTx
+namespace Ndn.C10
+open Ndn.Gen.C10 (lpPacketOverhead fragmentOverhead sequenceOverhead fragIndexCountOverhead
+  incomingFaceIdOverhead congestionMarkOverhead)
+
+/-- the working tree's TLV type numbers are the NDNLPv2 ones -/
 theorem gen_types_agree :
     Ndn.Gen.C10.ttLpPacket = ttLpPacket ∧ Ndn.Gen.C10.ttFragment = ttFragment ∧
     Ndn.Gen.C10.ttSequence = ttSequence ∧ Ndn.Gen.C10.ttFragIndex = ttFragIndex ∧
     Ndn.Gen.C10.ttFragCount = ttFragCount ∧ Ndn.Gen.C10.ttPitToken = ttPitToken ∧
-    Ndn.Gen.C10.ttIncomingFaceId = ttIncomingFaceId ∧ Ndn.Gen.C10.ttCongestionMark = ttCongestionMark := by
+    Ndn.Gen.C10.ttIncomingFaceId = ttIncomingFaceId ∧ Ndn.Gen.C10.ttCongestionMark = ttCongestionMark ∧
+    Ndn.Gen.C10.maxNDNPacketSize = specMaxPkt := by
   decide
+
+/-- **C10, every frame fits the MTU.**  For every configuration (fragmentation / incoming-face
+    indication / congestion marking on or off, any threshold), every MTU, every sender state (any
+    64-bit sequence counter), every packet of at most 8800 bytes with a PIT token of at most 32
+    bytes, any congestion mark, any incoming face id, congested or not: every frame handed to the
+    transport is at most MTU bytes long.  (Holds for every MTU; below the header size nothing is
+    sent — for MTU ≥ 128 see `sent_when_fragmentation_enabled`.) -/
+theorem frame_le_mtu (cfg : TxCfg) (st : TxSt) (p : OutPkt)
+    (hsize : p.wire.length ≤ specMaxPkt) (htok : p.token.length ≤ specMaxToken) :
+    ∀ fr ∈ (sendPacket cfg st p).2, fr.length ≤ cfg.mtu := by
+  intro fr hfr
+  simp only [sendPacket, List.mem_map] at hfr
+  obtain ⟨f, hf, rfl⟩ := hfr
+  by_cases hfit : (encFrame (wholeOf cfg st p)).length ≤ cfg.mtu
+  · rw [sendPacketF_single cfg st p hfit] at hf
+    simp at hf; subst hf; exact hfit
+  · by_cases hfrag : cfg.fragEnabled = true
+    · by_cases hov : cfg.mtu ≤ overheadOf (hdrOf cfg st p)
+      · rw [sendPacketF_tiny cfg st p hfit hfrag hov] at hf
+        simp at hf
+      · rw [sendPacketF_frag cfg st p hfit hfrag hov] at hf
+        simp only at hf
+        obtain ⟨k, part, hk, rfl⟩ := numberFrom_mem _ _ _ _ _ f hf
+        have htok' : (hdrOf cfg st p).token.length ≤ 32 := by
+          simpa [hdrOf, headerOf, specMaxToken] using htok
+        have hlen := chunks_length_le' (payloadRoom cfg st p) p.wire.length p.wire (Nat.le_refl _)
+        have hmem := List.mem_of_getElem? hk
+        have hklt : k < (chunks (payloadRoom cfg st p) p.wire).length := by
+          rcases Nat.lt_or_ge k (chunks (payloadRoom cfg st p) p.wire).length with h | h
+          · exact h
+          · rw [List.getElem?_eq_none h] at hk; simp at hk
+        have hroom : 1 ≤ payloadRoom cfg st p := by unfold payloadRoom; omega
+        have hple := chunks_mem_le (payloadRoom cfg st p) hroom p.wire.length p.wire (Nat.le_refl _) _ hmem
+        have hpw := chunks_mem_le_len (payloadRoom cfg st p) p.wire.length p.wire (Nat.le_refl _) _ hmem
+        simp only [specMaxPkt] at hsize
+        have := fragFrame_length_le (hdrOf cfg st p) ((st.nextSeq + k) % two64) (0 + k)
+          (chunks (payloadRoom cfg st p) p.wire).length part (by omega) (by omega) (by omega) htok'
+        unfold payloadRoom at hple
+        omega
+    · rw [sendPacketF_nofrag cfg st p hfit (by simpa using hfrag)] at hf
+      simp at hf
+
+example : ∃ fr ∈ (sendPacket { mtu := 128 } {} { wire := [6, 2, 7, 0] }).2, fr.length ≤ 128 :=
+  ⟨encFrame { frag := [6, 2, 7, 0] }, by
+    rw [sendPacket, sendPacketF_single _ _ _ (by decide)]; simp [wholeOf, hdrOf, headerOf, congestionStep], by decide⟩
+
+/-- **C10, a packet that fits is one frame.**  If the packet wrapped into ONE LpPacket with the
+    header fields it has to carry (`Sent.whole`: token, mark, incoming face id, Fragment) is at
+    most MTU bytes long, then exactly that one frame is sent — whatever the flags, also with
+    fragmentation disabled — and the sequence counter is not touched. -/
+theorem fits_single_frame (cfg : TxCfg) (st : TxSt) (p : OutPkt)
+    (hfit : (sentOf cfg st p).fitsWhole cfg.mtu = true) :
+    (sendPacket cfg st p).2 = [encFrame (sentOf cfg st p).whole] ∧
+    (sendPacket cfg st p).1.nextSeq = st.nextSeq := by
+  have h := (fitsWhole_iff cfg st p).mp hfit
+  rw [sendPacket, sendPacketF_single cfg st p h, wholeOf_eq]
+  exact ⟨rfl, rfl⟩
+
+example : (sendPacket { mtu := 128 } {} { wire := [6, 2, 7, 0] }).2 = [encFrame { frag := [6, 2, 7, 0] }] :=
+  (fits_single_frame { mtu := 128 } {} { wire := [6, 2, 7, 0] } (by decide)).1
+
+/-- **C10, fragmentation disabled: an oversize packet is dropped, never truncated.**  With
+    `IsFragmentationEnabled = false` a packet whose single frame would exceed the MTU produces no
+    frame at all (and by `fits_single_frame` one that fits is sent whole): no partial frame ever
+    leaves the link service. -/
+theorem nofrag_oversize_dropped (cfg : TxCfg) (st : TxSt) (p : OutPkt)
+    (hnofrag : cfg.fragEnabled = false) (hover : (sentOf cfg st p).fitsWhole cfg.mtu = false) :
+    (sendPacket cfg st p).2 = [] := by
+  have h : ¬ (encFrame (wholeOf cfg st p)).length ≤ cfg.mtu := by
+    intro hh; rw [(fitsWhole_iff cfg st p).mpr hh] at hover; simp at hover
+  rw [sendPacket, sendPacketF_nofrag cfg st p h hnofrag]
+  rfl
+
+example : (sendPacket { mtu := 8, fragEnabled := false } {} { wire := [6, 2, 7, 0, 1] }).2 = [] :=
+  nofrag_oversize_dropped _ _ _ rfl (by decide)
+
+/-- **C10, nothing is ever truncated (any configuration).**  Whatever is sent carries the whole
+    packet: the Fragment payloads of the emitted LpPackets, in order, concatenate to the packet's
+    bytes — or nothing is sent at all. -/
+theorem never_truncated (cfg : TxCfg) (st : TxSt) (p : OutPkt) :
+    (sendPacketF cfg st p).2.1 = [] ∨
+    ((sendPacketF cfg st p).2.1.map (·.frag)).flatten = p.wire := by
+  by_cases hfit : (encFrame (wholeOf cfg st p)).length ≤ cfg.mtu
+  · right; rw [sendPacketF_single cfg st p hfit]; simp [wholeOf]
+  · by_cases hfrag : cfg.fragEnabled = true
+    · by_cases hov : cfg.mtu ≤ overheadOf (hdrOf cfg st p)
+      · left; rw [sendPacketF_tiny cfg st p hfit hfrag hov]
+      · right
+        rw [sendPacketF_frag cfg st p hfit hfrag hov]
+        simp only [numberFrom_frags]
+        exact chunks_flatten _ _ _ (Nat.le_refl _)
+    · left; rw [sendPacketF_nofrag cfg st p hfit (by simpa using hfrag)]
+
+example : ((sendPacketF { mtu := 128 } {} { wire := [6, 2, 7, 0] }).2.1.map (·.frag)).flatten = [6, 2, 7, 0] := by
+  rw [sendPacketF_single _ _ _ (by decide)]; rfl
+
+/-- **C10, with fragmentation enabled and MTU ≥ 128 every admissible packet is sent**: as one frame
+    when it fits, otherwise as at least two numbered fragments (the header overhead never exceeds
+    84 bytes, so at least 44 payload bytes fit into every fragment). -/
+theorem sent_when_fragmentation_enabled (cfg : TxCfg) (st : TxSt) (p : OutPkt)
+    (hmtu : specMinMtu ≤ cfg.mtu) (hfrag : cfg.fragEnabled = true)
+    (hsize : p.wire.length ≤ specMaxPkt) (htok : p.token.length ≤ specMaxToken) :
+    ((sentOf cfg st p).fitsWhole cfg.mtu = true ∧ (sendPacket cfg st p).2.length = 1) ∨
+    ((sentOf cfg st p).fitsWhole cfg.mtu = false ∧ 2 ≤ (sendPacket cfg st p).2.length) := by
+  by_cases hfit : (sentOf cfg st p).fitsWhole cfg.mtu = true
+  · left; exact ⟨hfit, by rw [(fits_single_frame cfg st p hfit).1]; rfl⟩
+  · right
+    have hfit' : (sentOf cfg st p).fitsWhole cfg.mtu = false := by simpa using hfit
+    refine ⟨hfit', ?_⟩
+    have h : ¬ (encFrame (wholeOf cfg st p)).length ≤ cfg.mtu := fun hh => hfit ((fitsWhole_iff cfg st p).mpr hh)
+    have htok' : (hdrOf cfg st p).token.length ≤ 32 := by
+      simpa [hdrOf, headerOf, specMaxToken] using htok
+    have hov := overheadOf_le htok'
+    simp only [specMinMtu] at hmtu
+    simp only [specMaxPkt] at hsize
+    have hlt : ¬ cfg.mtu ≤ overheadOf (hdrOf cfg st p) := by omega
+    -- the packet is longer than one fragment payload, otherwise it would have fitted
+    have hbig : payloadRoom cfg st p < p.wire.length := by
+      rcases Nat.lt_or_ge (payloadRoom cfg st p) p.wire.length with hh | hh
+      · exact hh
+      · exfalso
+        apply h
+        have := wholeFrame_length_le (hdrOf cfg st p) rfl rfl rfl p.wire hsize htok'
+        unfold payloadRoom at hh
+        exact Nat.le_trans this (by omega)
+    have hroom : 1 ≤ payloadRoom cfg st p := by unfold payloadRoom; omega
+    have := chunks_length_ge2 (payloadRoom cfg st p) hroom p.wire hbig
+    rw [sendPacket, sendPacketF_frag cfg st p h hfrag hlt]
+    simpa [numberFrom_length] using this
+
+example (w : Bytes) (hw : w.length = 300) : 2 ≤ (sendPacket { mtu := 128 } {} { wire := w }).2.length := by
+  rcases sent_when_fragmentation_enabled { mtu := 128 } {} { wire := w }
+    (by decide) rfl (by simp [specMaxPkt, hw]) (by simp [specMaxToken]) with ⟨h, _⟩ | ⟨_, h⟩
+  · exfalso
+    rw [fitsWhole_iff, encFrame_length] at h
+    simp [innerLen, wholeOf, hdrOf, headerOf, congestionStep, tokLen, hw] at h
+    omega
+  · exact h
 
 end Ndn.C10
